@@ -5,6 +5,7 @@ import (
 	"encoding/json"
 	"fmt"
 	"reflect"
+	"regexp"
 	"strings"
 
 	"github.com/formancehq/stack/libs/go-libs/bun/bunpaginate"
@@ -71,6 +72,18 @@ func count(s *Store, ctx context.Context, builders ...func(query *bun.SelectQuer
 	return s.bucket.db.NewSelect().
 		TableExpr("(" + query.String() + ") data").
 		Count(ctx)
+}
+
+// addressFilterRegexp is the shape of an address filter: the segments of an account
+// address, any of which may be left empty to match every value. Filters are
+// rendered into the statement as text, so nothing else may go through.
+var addressFilterRegexp = regexp.MustCompile("^(" + ledger.AccountSegmentRegex + ")?(:(" + ledger.AccountSegmentRegex + ")?)*$")
+
+func validateAddressFilter(address string) error {
+	if !addressFilterRegexp.MatchString(address) {
+		return newErrInvalidQuery("invalid address filter '%s': segments should respect pattern '%s'", address, ledger.AccountSegmentRegex)
+	}
+	return nil
 }
 
 func filterAccountAddress(address, key string) string {
